@@ -1,8 +1,9 @@
 #!/bin/bash
-# usage: tools/seedtest.sh <PROP> <worktree> [other props to run...]
+# usage: tools/seedtest.sh <ID> <worktree> [props to run...]      ID = C06 or C06b (second seed for C06); default property = ID without its suffix letter
 # confirms a seeded change (tests still pass, demo fails with / passes without), stores it under /verif/seeded/, runs the checks on /repo with it applied
 set -u
 P=$1; WT=$2; shift 2; OTHERS="$@"
+PROP=$(echo $P | sed 's/[a-z]$//')
 OUT=/verif/seeded/$P
 mkdir -p $OUT
 cp $WT/seed_out/patch.diff $OUT/patch.diff
@@ -20,7 +21,7 @@ git apply seed_out/patch.diff
 cd /verif
 git -C /repo apply $OUT/patch.diff || { echo "patch does not apply to /repo"; exit 2; }
 RES=""
-for c in $P $OTHERS; do
+for c in $PROP $OTHERS; do
   ./check $c > /tmp/sp/seed_$c.out 2>&1; rc=$?
   echo "== check $c exit=$rc"; grep -E "^VIOLATION|^UNDECIDED|^KNOWN|^  obligation" /tmp/sp/seed_$c.out | cut -c1-300 | head -6
   RES="$RES $c:$rc"
